@@ -152,6 +152,8 @@ for k in ('C01', 'C04', 'C06', 'C17'):
     CLAIMS[k]['text'] = CLAIMS[k]['text'].replace(GEN, GEN2)
 FILL = " Write-buffer fill sweep (X3): the subject's codec is filled to every level around 'full' by blocking the transport, the control frames it then owes (%s) become due, the transport opens: each owed frame must appear exactly once, in order, and nothing else may change."
 CLAIMS['C03']['text'] += FILL % "WINDOW_UPDATEs for released octets on streams and connection"
+CLAIMS['C03']['text'] += " A second model with one stream whose request declares content-length 3: DATA frames that are stream errors (too long / ended too early) are flow-controlled all the same and must be credited back exactly once."
+CLAIMS['C19']['text'] += " Write-buffer fill sweep for the client's idle close (GOAWAY(NO_ERROR) becoming due while the codec is full)."
 CLAIMS['C05']['text'] += FILL % "REFUSED_STREAM resets for streams over the limit" + " Server model also: responding with a body and connection polls with the transport blocked."
 CLAIMS['C05']['text'] += " Push, both ways: a client that advertises a limit of 1 receives two PUSH_PROMISEs and their responses (the second pushed stream must be refused, never surfaced as a second open stream; model shared with C19); a server whose peer allows 0 / 1 / 2 / many concurrent streams pushes up to 3-4 streams with open-ended responses, ends / resets / drops them, the peer resets them and moves its limit - the wire monitor counts the server's own (pushed) streams against the acknowledged limit, and once the limit is lifted every promise nobody cancelled has been announced, answered and ended."
 CLAIMS['C14']['text'] += FILL % "SETTINGS ACKs and PING ACKs, one per frame received, in order"
